@@ -68,6 +68,8 @@ func (r *LongLinesRule) Check(ctx *linter.Context) ([]linter.Violation, error) {
 	violations := []linter.Violation{}
 
 	for lineNum, line := range ctx.Lines {
+		// With CRLF line endings the carriage return is not part of the line
+		line = strings.TrimSuffix(line, "\r")
 		lineLength := len(line)
 
 		// Skip empty lines
